@@ -12,180 +12,12 @@
 #include <sstream>
 #include "world.hpp"
 
+#include "unify_interp.hpp"
 using vj::Value;
+using namespace vu;
 namespace impl = ipr::impl;
 
 namespace {
-   struct Interp {
-      vh::World w;
-      // operand pools for the random driver (ids by sort)
-      std::vector<int> types, exprs, idents, products, sums, linkages, callconvs, transfers, logograms,
-         exprlists, templates, foralls;
-
-      Interp()
-      {
-         w.init_consts();
-         for (int k : {12, 3, 2, 1}) types.push_back(k);
-         for (int k : {27, 28, 29}) exprs.push_back(k);
-         for (int k : {49, 39, 67, 70}) idents.push_back(k);
-         linkages = {34, 35};
-         callconvs = {37};
-         transfers = {36};
-      }
-
-      static Value no_obs(const char* c = "None")
-      {
-         auto o = Value::object();
-         o.set("c", c).set("ops", Value::array()).set("q", 0).set("w", "").set("w2", "").set("ty", 0).set("bad", "");
-         return o;
-      }
-
-      void note(int id, const std::string& c)
-      {
-         auto add = [id](std::vector<int>& v) { if (std::find(v.begin(), v.end(), id) == v.end()) v.push_back(id); };
-         static const std::set<std::string> type_cats { "Pointer", "Reference", "Rvalue_reference", "Array",
-            "Qualified", "Function", "Product", "Sum", "Forall", "Ptr_to_member", "Tor", "As_type", "As_type_id",
-            "Decltype", "Auto", "Class" };
-         if (type_cats.count(c)) add(types);
-         if (c == "Symbol" or c == "Literal" or c == "Phantom") add(exprs);
-         if (c == "Identifier") add(idents);
-         if (c == "Product") add(products);
-         if (c == "Sum") add(sums);
-         if (c == "Forall") add(foralls);
-         if (c == "Linkage") add(linkages);
-         if (c == "CallConv") add(callconvs);
-         if (c == "Transfer") add(transfers);
-         if (c == "Logogram") add(logograms);
-         if (c == "Expr_list") add(exprlists);
-         if (c == "Template") add(templates);
-      }
-
-      // Execute one request; returns the event.
-      Value exec(const Value& req)
-      {
-         const std::string op = req.at("op").as_str();
-         std::vector<int> a;
-         if (auto p = req.find("a"))
-            for (auto& x : *p->a) a.push_back(static_cast<int>(x.as_int()));
-         const int q = static_cast<int>(req.get_int("q", 0));
-         const std::string wd = req.get_str("w", "");
-         const std::u8string u = vh::u8(wd);
-
-         auto ev = Value::object();
-         auto aa = Value::array();
-         for (int x : a) aa.push(x);
-         ev.set("op", op).set("a", aa).set("q", q).set("w", wd);
-
-         auto& lx = w.lex;
-         auto T = [&](int k) -> const ipr::Type& { return w.as<ipr::Type>(a.at(k)); };
-         auto E = [&](int k) -> const ipr::Expr& { return w.as<ipr::Expr>(a.at(k)); };
-         auto P = [&](int k) -> const ipr::Product& { return w.as<ipr::Product>(a.at(k)); };
-         auto X = [&](int k) -> const ipr::Transfer& { return w.xfer(a.at(k)); };
-         auto I = [&](int k) -> const ipr::Identifier& { return w.as<ipr::Identifier>(a.at(k)); };
-         int r = 0;
-         bool opaque = false, truth = false;
-         std::string out = "ok";
-         try {
-            if (op == "get_pointer") r = w.reg(lx.get_pointer(T(0)));
-            else if (op == "get_reference") r = w.reg(lx.get_reference(T(0)));
-            else if (op == "get_rvalue_reference") r = w.reg(lx.get_rvalue_reference(T(0)));
-            else if (op == "get_array") r = w.reg(lx.get_array(T(0), E(1)));
-            else if (op == "get_qualified") r = w.reg(lx.get_qualified(w.quals(q), T(0)));
-            else if (op == "get_function") r = w.reg(lx.get_function(P(0), T(1)));
-            else if (op == "get_function_x") r = w.reg(lx.get_function(P(0), T(1), X(2)));
-            else if (op == "get_function_e") r = w.reg(lx.get_function(P(0), T(1), E(2)));
-            else if (op == "get_function_ex") r = w.reg(lx.get_function(P(0), T(1), E(2), X(3)));
-            else if (op == "get_product" or op == "get_sum") {
-               impl::Warehouse<ipr::Type> wh;
-               for (std::size_t k = 0; k < a.size(); ++k) wh.push_back(T(static_cast<int>(k)));
-               r = op == "get_product" ? w.reg(lx.get_product(wh)) : w.reg(lx.get_sum(wh));
-            }
-            else if (op == "get_product_of" or op == "get_sum_of") {
-               const ipr::Sequence<ipr::Type>* s = nullptr;
-               if (auto p = dynamic_cast<const ipr::Product*>(w.ent(a.at(0)).node)) s = &p->elements();
-               else s = &w.as<ipr::Sum>(a.at(0)).elements();
-               r = op == "get_product_of" ? w.reg(lx.get_product(*s)) : w.reg(lx.get_sum(*s));
-            }
-            else if (op == "get_forall") r = w.reg(lx.get_forall(P(0), T(1)));
-            else if (op == "get_ptr_to_member") r = w.reg(lx.get_ptr_to_member(T(0), T(1)));
-            else if (op == "get_tor") r = w.reg(lx.get_tor(P(0), w.as<ipr::Sum>(a.at(1))));
-            else if (op == "get_as_type") r = w.reg(lx.get_as_type(E(0)));
-            else if (op == "get_as_type_x") r = w.reg(lx.get_as_type(E(0), X(1)));
-            else if (op == "get_as_type_id") r = w.reg(lx.get_as_type(I(0)));
-            else if (op == "get_decltype") r = w.reg(lx.get_decltype(E(0)));
-            else if (op == "get_auto") r = w.reg(lx.get_auto());
-            else if (op == "get_transfer_from_linkage") r = w.reg(lx.get_transfer_from_linkage(w.linkage(a.at(0))));
-            else if (op == "get_transfer_from_convention") r = w.reg(lx.get_transfer_from_convention(w.callconv(a.at(0))));
-            else if (op == "get_transfer") r = w.reg(lx.get_transfer(w.linkage(a.at(0)), w.callconv(a.at(1))));
-            else if (op == "get_identifier") r = w.reg(lx.get_identifier(u));
-            else if (op == "get_operator") r = w.reg(lx.get_operator(u));
-            else if (op == "get_suffix") r = w.reg(lx.get_suffix(I(0)));
-            else if (op == "get_conversion") r = w.reg(lx.get_conversion(T(0)));
-            else if (op == "get_ctor_name") r = w.reg(lx.get_ctor_name(T(0)));
-            else if (op == "get_dtor_name") r = w.reg(lx.get_dtor_name(T(0)));
-            else if (op == "get_guide_name") r = w.reg(lx.get_guide_name(w.as<ipr::Template>(a.at(0))));
-            else if (op == "get_template_id")
-               r = w.reg(lx.get_template_id(w.as<ipr::Expr>(a.at(0)), w.as<ipr::Expr_list>(a.at(1))));
-            else if (op == "get_logogram") r = w.reg_logo(lx.get_logogram(lx.get_string(u)));
-            else if (op == "get_symbol") r = w.reg(lx.get_symbol(w.as<ipr::Name>(a.at(0)), T(1)));
-            else if (op == "get_label") r = w.reg(lx.get_label(I(0)));
-            else if (op == "get_this") r = w.reg(lx.get_this(T(0)));
-            else if (op == "get_literal") r = w.reg(lx.get_literal(T(0), u));
-            else if (op == "make_literal") r = w.reg(*lx.make_literal(T(0), u));
-            else if (op == "get_linkage") r = w.reg(lx.get_linkage(u));
-            else if (op == "get_calling_convention") r = w.reg(lx.get_calling_convention(u));
-            else if (op == "eq_linkage") {
-               auto& x = w.linkage(a.at(0)); auto& y = w.linkage(a.at(1));
-               r = x == y; truth = true;
-               if ((x != y) == (x == y)) out = "eq-ne-inconsistent";
-            }
-            else if (op == "eq_callconv") {
-               auto& x = w.callconv(a.at(0)); auto& y = w.callconv(a.at(1));
-               r = x == y; truth = true;
-               if ((x != y) == (x == y)) out = "eq-ne-inconsistent";
-            }
-            else if (op == "eq_transfer") {
-               auto& x = w.xfer(a.at(0)); auto& y = w.xfer(a.at(1));
-               r = x == y; truth = true;
-               if ((x != y) == (x == y)) out = "eq-ne-inconsistent";
-            }
-            else if (op == "eq_logogram") {
-               auto& x = w.logogram(a.at(0)); auto& y = w.logogram(a.at(1));
-               r = x == y; truth = true;
-               if ((x != y) == (x == y)) out = "eq-ne-inconsistent";
-            }
-            else if (op == "mk_class") { r = w.reg(*lx.make_class(*w.unit.global_region())); opaque = true; }
-            else if (op == "mk_phantom") { r = w.reg(*lx.make_phantom()); opaque = true; }
-            else if (op == "mk_expr_list") { r = w.reg(*lx.make_expr_list()); opaque = true; }
-            else if (op == "mk_template") {
-               r = w.reg(*w.unit.global_scope()->make_primary_template(w.as<ipr::Name>(a.at(0)), w.as<ipr::Forall>(a.at(1))));
-               opaque = true;
-            }
-            else
-               throw vh::HarnessError("unknown op " + op);
-         }
-         catch (const vh::HarnessError&) { throw; }
-         catch (const std::logic_error&) { out = "refused"; r = 0; }
-         catch (const std::exception& e) { out = std::string("exception:") + typeid(e).name(); r = 0; }
-         catch (...) { out = "exception:unknown"; r = 0; }
-
-         ev.set("out", out).set("r", r);
-         if (out != "ok" or truth)
-            ev.set("o", no_obs());
-         else if (opaque) {
-            auto c = vh::cat_name(w.ent(r).node->category);
-            ev.set("o", no_obs(c));
-            note(r, c);
-         }
-         else {
-            auto o = w.obs(r);
-            note(r, o.at("c").as_str());
-            ev.set("o", o);
-         }
-         return ev;
-      }
-   };
-
    // ---------------------------------------------------------------------------------------------
    // The behaviour being executed is kept in the file named by VERIF_LASTBEH, so that a crash of the library
    // inside the replayer still leaves a replayable artefact.
@@ -323,108 +155,6 @@ namespace {
    }
 
    // ---------------------------------------------------------------------------------------------
-   // Random driver
-   struct Rng {
-      std::mt19937_64 g;
-      explicit Rng(unsigned long s) : g{s} { }
-      int below(int n) { return n <= 0 ? 0 : static_cast<int>(g() % static_cast<unsigned long>(n)); }
-      int pick(const std::vector<int>& v) { return v.at(below(static_cast<int>(v.size()))); }
-      bool coin(int pct) { return below(100) < pct; }
-   };
-
-   const std::vector<std::string> all_ops {
-      "get_pointer", "get_reference", "get_rvalue_reference", "get_array", "get_qualified", "get_function",
-      "get_function_x", "get_function_e", "get_function_ex", "get_product", "get_sum", "get_product_of",
-      "get_sum_of", "get_forall", "get_ptr_to_member", "get_tor", "get_as_type", "get_as_type_x", "get_as_type_id",
-      "get_decltype", "get_auto", "get_transfer_from_linkage", "get_transfer_from_convention", "get_transfer",
-      "get_identifier", "get_operator", "get_suffix", "get_conversion", "get_ctor_name", "get_dtor_name",
-      "get_guide_name", "get_template_id", "get_logogram", "get_symbol", "get_label", "get_this", "get_literal",
-      "make_literal", "get_linkage", "get_calling_convention", "eq_linkage", "eq_callconv", "eq_transfer",
-      "eq_logogram", "mk_class", "mk_phantom", "mk_expr_list", "mk_template" };
-
-   const std::vector<std::string> words { "", "a", "b", "foo", "bar", "int", "C", "C++", "Java", "cdecl", "this",
-      "default", "const", "unsigned long long", "static", "x1", "operator", "+", "new[]", "zz" };
-
-   // Build a random request that is well-sorted for the current pools; returns false if impossible now.
-   bool random_request(Interp& in, Rng& rng, const std::string& op, Value& req)
-   {
-      req = Value::object();
-      auto a = Value::array();
-      int q = 0;
-      std::string wd;
-      auto need = [](const std::vector<int>& v) { return not v.empty(); };
-      auto anyexpr = [&]() { return rng.coin(50) ? rng.pick(in.exprs) : rng.pick(in.types); };
-      if (op == "get_pointer" or op == "get_reference" or op == "get_rvalue_reference" or op == "get_conversion"
-          or op == "get_ctor_name" or op == "get_dtor_name" or op == "get_this")
-         a.push(rng.pick(in.types));
-      else if (op == "get_array") { a.push(rng.pick(in.types)); a.push(anyexpr()); }
-      else if (op == "get_qualified") { a.push(rng.pick(in.types)); q = rng.coin(8) ? 0 : 1 + rng.below(7); }
-      else if (op == "get_function" or op == "get_forall") {
-         if (not need(in.products)) return false;
-         a.push(rng.pick(in.products)); a.push(rng.pick(in.types));
-      }
-      else if (op == "get_function_x") {
-         if (not need(in.products)) return false;
-         a.push(rng.pick(in.products)); a.push(rng.pick(in.types)); a.push(rng.pick(in.transfers));
-      }
-      else if (op == "get_function_e") {
-         if (not need(in.products)) return false;
-         a.push(rng.pick(in.products)); a.push(rng.pick(in.types)); a.push(anyexpr());
-      }
-      else if (op == "get_function_ex") {
-         if (not need(in.products)) return false;
-         a.push(rng.pick(in.products)); a.push(rng.pick(in.types)); a.push(anyexpr()); a.push(rng.pick(in.transfers));
-      }
-      else if (op == "get_product" or op == "get_sum") {
-         int n = rng.below(4);
-         for (int k = 0; k < n; ++k) a.push(rng.pick(in.types));
-      }
-      else if (op == "get_product_of" or op == "get_sum_of") {
-         if (not need(in.products) and not need(in.sums)) return false;
-         a.push(need(in.sums) and (not need(in.products) or rng.coin(40)) ? rng.pick(in.sums) : rng.pick(in.products));
-      }
-      else if (op == "get_ptr_to_member") { a.push(rng.pick(in.types)); a.push(rng.pick(in.types)); }
-      else if (op == "get_tor") {
-         if (not need(in.products) or not need(in.sums)) return false;
-         a.push(rng.pick(in.products)); a.push(rng.pick(in.sums));
-      }
-      else if (op == "get_as_type") a.push(anyexpr());
-      else if (op == "get_as_type_x") { a.push(anyexpr()); a.push(rng.pick(in.transfers)); }
-      else if (op == "get_as_type_id" or op == "get_suffix" or op == "get_label") a.push(rng.pick(in.idents));
-      else if (op == "get_decltype") a.push(rng.coin(30) ? 29 : anyexpr());
-      else if (op == "get_auto") { }
-      else if (op == "get_transfer_from_linkage") a.push(rng.pick(in.linkages));
-      else if (op == "get_transfer_from_convention") a.push(rng.pick(in.callconvs));
-      else if (op == "get_transfer") { a.push(rng.pick(in.linkages)); a.push(rng.pick(in.callconvs)); }
-      else if (op == "get_identifier" or op == "get_operator" or op == "get_logogram" or op == "get_linkage"
-               or op == "get_calling_convention")
-         wd = words[rng.below(static_cast<int>(words.size()))];
-      else if (op == "get_guide_name") { if (not need(in.templates)) return false; a.push(rng.pick(in.templates)); }
-      else if (op == "get_template_id") {
-         if (not need(in.exprlists)) return false;
-         a.push(anyexpr()); a.push(rng.pick(in.exprlists));
-      }
-      else if (op == "get_symbol") { a.push(rng.pick(in.idents)); a.push(rng.pick(in.types)); }
-      else if (op == "get_literal" or op == "make_literal") {
-         a.push(rng.pick(in.types)); wd = words[rng.below(static_cast<int>(words.size()))];
-      }
-      else if (op == "eq_linkage") { a.push(rng.pick(in.linkages)); a.push(rng.pick(in.linkages)); }
-      else if (op == "eq_callconv") { a.push(rng.pick(in.callconvs)); a.push(rng.pick(in.callconvs)); }
-      else if (op == "eq_transfer") { a.push(rng.pick(in.transfers)); a.push(rng.pick(in.transfers)); }
-      else if (op == "eq_logogram") {
-         if (not need(in.logograms)) return false;
-         a.push(rng.pick(in.logograms)); a.push(rng.pick(in.logograms));
-      }
-      else if (op == "mk_class" or op == "mk_phantom" or op == "mk_expr_list") { }
-      else if (op == "mk_template") {
-         if (not need(in.foralls)) return false;
-         a.push(rng.pick(in.idents)); a.push(rng.pick(in.foralls));
-      }
-      else return false;
-      req.set("op", op).set("a", a).set("q", q).set("w", wd);
-      return true;
-   }
-
    int do_record(int argc, char** argv)
    {
       unsigned long seed = 1;
@@ -476,6 +206,20 @@ namespace {
                in.w.lex.get_conversion(t);
             }
             std::cout << vj::dump(in.exec(req)) << "\n";
+            // C05: an entity returned earlier reads exactly as it did when it was returned
+            if (in.w.next_id() > vh::World::NConst + 1 and k % 2 == 0) {
+               int id = vh::World::NConst + 1 + rng.below(in.w.next_id() - vh::World::NConst - 1);
+               auto& e = in.w.ent(id);
+               bool opaque = e.kind == vh::K_node and (dynamic_cast<const ipr::Class*>(e.node) or dynamic_cast<const ipr::Phantom*>(e.node)
+                                                       or dynamic_cast<const ipr::Expr_list*>(e.node) or dynamic_cast<const ipr::Template*>(e.node));
+               if (not opaque) {
+                  auto ob = Value::object();
+                  auto aa = Value::array();
+                  aa.push(id);
+                  ob.set("op", "observe").set("a", aa).set("q", 0).set("w", "").set("out", "ok").set("r", id).set("o", in.w.obs(id));
+                  std::cout << vj::dump(ob) << "\n";
+               }
+            }
          }
          std::cout << "{\"op\":\"reset\",\"a\":[],\"q\":0,\"w\":\"\",\"out\":\"ok\",\"r\":0,\"o\":" << vj::dump(Interp::no_obs()) << "}\n";
       }
